@@ -220,6 +220,39 @@ def tables(ctx, backend):
                     ctx.run("hostile", backend=backend, route=route, text=text, where=where)
 
 
+# hosts made only of characters that str.isdigit()/isdecimal()/isnumeric() accept but that are not ASCII digits (full-width, superscript,
+# circled, Arabic-Indic, Devanagari, mathematical): they are IDNA names, never "numeric" hosts
+DIGIT_LOOKALIKES = ["\uff11\uff12\uff17.\uff10.\uff10.\uff11", "\xb2", "\u2460.\u2461", "\u0661\u0662\u0663", "\u0661\u0662\u0663.com", "\uff11.\uff12", "a\uff11", "\u0967\u0968.example",
+                    "\U0001d7d9\U0001d7da.net", "\uff11\uff10", "1.\uff12.3.4", "\u0664\u0662"]
+WRAPPED = ["example.com", "1.2.3.4", "::1", "fe80::1%Eth0", "", "v1.x", "a", "xn--n3h", "\u043f\u0440\u0438\u043c\u0435\u0440"]
+
+
+def check_wrapped(ctx, backend, route, text):
+    """square brackets are outside the reg-name grammar: the validating routes refuse them also as a pair around the whole argument"""
+    Y = ctx.yarl(backend)
+    ctx.case(True, label="wrapped/" + route, key=("wrapped", route, text, backend))
+    try:
+        u = Y.URL("http://u@x.example:81/p").with_host(text) if route == "with_host" else Y.URL.build(scheme="http", user="u", host=text, port=81, path="/p")
+    except ValueError:
+        return
+    except Exception:  # noqa: BLE001  (C19)
+        return
+    ctx.check(False, "build(host=)/with_host() accepted a host written with square brackets", observed={"arg": text, "str": str(u), "raw_host": u.raw_host}, expected="ValueError", entry=route)
+
+
+CHECKS["wrapped"] = check_wrapped
+
+
+def lookalikes(ctx, backend):
+    for route in ROUTES:
+        for h in DIGIT_LOOKALIKES:
+            ctx.run("host", backend=backend, route=route, text=h)
+    for route in ("with_host", "build.host"):
+        for h in WRAPPED:
+            for text in ("[" + h + "]", "[" + h, h + "]", "[[" + h + "]]"):
+                ctx.run("wrapped", backend=backend, route=route, text=text)
+
+
 def generated(ctx, backend, n):
     ctx.given("host", {"route": st.sampled_from(ROUTES), "text": gen.host_text()}, max_examples=n, fixed={"backend": backend})
 
@@ -254,6 +287,7 @@ def shards(tier, seed):
     out = []
     for b in ("py", "c"):
         out.append({"name": "tables-%s" % b, "fn": "tables", "kw": {"backend": b}})
+        out.append({"name": "lookalikes-%s" % b, "fn": "lookalikes", "kw": {"backend": b}})
         for i in range(k):
             out.append({"name": "gen-%s-%d" % (b, i), "fn": "generated", "kw": {"backend": b, "n": n}})
         if tier != "quick":
